@@ -33,7 +33,7 @@ def sessions(ctx):
 
 
 def run(ctx):
-    return sessbase.run_property(ctx, 'C16',
+    rep = sessbase.run_property(ctx, 'C16',
         'P1: TLC checks the separator rule (only directly before a shown message, iff the gap to the previously *shown* message '
         'exceeds one second) over all behaviours with gaps {1, 999999, 1000000, 1000001, 2500000} us and a filter hiding the '
         'messages in between; P2: every behaviour is concretised four times (time shifts 0 / 770203519 / 4e9 us / float-exact, '
@@ -41,6 +41,10 @@ def run(ctx):
         'digit), separator presence and gap are compared with Session!Step by TLC; exactly one second is judged only for '
         'float-exact time stamps.',
         [('MC_Session_time.cfg', 'C16 times and separators', {'MaxLen': 4})], sessions(ctx))
+    # times and separators as GDB mode shows them
+    from props import gdbbase
+    gdbbase.gdb_batch(ctx, rep, relevant('C16'), ctx.pick(40, 400), 1000393, cmd_rate=0.2, destroy_rate=0.02)
+    return rep
 
 
 def replay(ctx, data):
